@@ -35,15 +35,6 @@ import (
 	"pgregory.net/rapid"
 )
 
-// Known-finding fingerprints (honoured only when listed as open in known_findings.json).
-const (
-	fpPrimaryEarlyStop = "C03:primary-second-filter-stops-scan"
-	fpBinaryPrefixSeek = "C03:binary-primary-prefix-seek"
-	fpSplitIDMissing   = "C03:missing-splitid-attribute-fails-search"
-	fpAbsentPanic      = "C03:not-present-on-primary-attribute-panics"
-	fpMixedPrimary     = "C03:mixed-numeric-and-string-filters-on-primary"
-)
-
 // target abstracts meta.DB and shard.Shard.
 type target struct {
 	put    func(*object.Object) error
@@ -234,49 +225,7 @@ func sharesPrefix(vals []string) bool {
 	return false
 }
 
-// classify returns known-finding classes this (corpus, query) belongs to by construction.
-func classify(view []refsearch.Obj, q refsearch.Query) []string {
-	var r []string
-	if len(q.Attrs) > 0 && len(q.Filters) > 1 && !refsearch.IDOrdered(q) {
-		for _, f := range q.Filters[1:] {
-			if f.Key == q.Filters[0].Key && f.Op != refsearch.OpNE && f.Op != refsearch.OpAbsent &&
-				refsearch.IsNumeric(f.Op) == refsearch.IsNumeric(q.Filters[0].Op) {
-				r = append(r, fpPrimaryEarlyStop)
-				break
-			}
-		}
-		for _, f := range q.Filters[1:] {
-			if f.Key == q.Filters[0].Key && f.Op != refsearch.OpAbsent &&
-				refsearch.IsNumeric(f.Op) != refsearch.IsNumeric(q.Filters[0].Op) {
-				r = append(r, fpMixedPrimary)
-				break
-			}
-		}
-	}
-	if len(q.Attrs) > 0 && len(q.Filters) > 1 && !refsearch.IDOrdered(q) {
-		for _, f := range q.Filters[1:] {
-			if f.Key == q.Filters[0].Key && f.Op == refsearch.OpAbsent {
-				r = append(r, fpAbsentPanic)
-				break
-			}
-		}
-	}
-	if len(q.Attrs) > 0 && len(q.Filters) > 0 {
-		f := q.Filters[0]
-		if f.Op == refsearch.OpPrefix && f.Val != "" {
-			switch f.Key {
-			case refsearch.KOwner, refsearch.KParent, refsearch.KFirst, refsearch.KAssociate:
-				r = append(r, fpBinaryPrefixSeek)
-			}
-		}
-	}
-	for i, a := range q.Attrs {
-		if i > 0 && a == refsearch.KSplitID {
-			r = append(r, fpSplitIDMissing)
-		}
-	}
-	return r
-}
+func classify(view []refsearch.Obj, q refsearch.Query) []string { return searchgen.C03Classes(view, q) }
 
 func runCorpus(t *rapid.T, rec *ev.Recorder, open func(*stor.Epoch) (*target, error), nQueries int) {
 	c := searchgen.Gen(searchgen.GenOpts{}).Draw(t, "corpus")
@@ -465,11 +414,11 @@ func runCorpus(t *rapid.T, rec *ev.Recorder, open func(*stor.Epoch) (*target, er
 func TestC03Metabase(t *testing.T) {
 	rec := ev.New("C03", "metabase")
 	defer rec.Flush()
-	rapid.Check(t, func(t *rapid.T) { runCorpus(t, rec, openDB, 8) })
+	rapid.Check(t, func(t *rapid.T) { runCorpus(t, rec, openDB, 12) })
 }
 
 func TestC03Shard(t *testing.T) {
 	rec := ev.New("C03", "shard")
 	defer rec.Flush()
-	rapid.Check(t, func(t *rapid.T) { runCorpus(t, rec, openShard, 8) })
+	rapid.Check(t, func(t *rapid.T) { runCorpus(t, rec, openShard, 12) })
 }
